@@ -38,7 +38,11 @@ Inductive mop :=
 | MConnectError (now : Z) (tgt : string) (msg : string)
 | MUpdateMeta (now : Z)
 | MUpdateSize (sizes : list (string * Z))           (* per target: sum of the json sizes of its leaves *)
-| MSub (tgt : string).                              (* attach a STREAM/updates_only subscriber to the whole target *)
+| MSub (tgt : string)                               (* attach a STREAM/updates_only subscriber to the whole target *)
+| MSubWalk (now : Z) (tgt : string) (rm : option string).
+    (* attach a STREAM subscriber WITH the initial walk; [rm = Some x]: Cache.Remove(x)
+       is executed between the registration of the subscription and the walk
+       (hook point process:before-walk) *)
 
 Inductive rcls := ROk | RStale | RFuture | ROther | RMulti (l : list rcls) | RPanic.
 
@@ -75,6 +79,8 @@ Definition op_addr (o : mop) : addr :=
   | MReset _ t | MRemove _ t | MAdd t | MSync _ t | MConnect _ t | MConnectError _ t _ => AOne t
   | MUpdateMeta _ | MUpdateSize _ => AAll
   | MSub _ => ANone
+  | MSubWalk _ _ (Some x) => AOne x
+  | MSubWalk _ _ None => ANone
   end.
 
 (** * Cache-level observers *)
@@ -152,6 +158,14 @@ Definition cstep (c : cache) (o : mop) : cache * rcls * mfeed :=
   | MUpdateMeta now => let '(c', l, p) := cache_update_metadata c now in (c', opt_panic p, MBag l)
   | MUpdateSize sizes => (cache_update_size c sizes, ROk, MBag [])
   | MSub _ => (c, ROk, MBag [])
+  | MSubWalk now T rm =>
+      (* Subscribe returns NotFound before anything else happens when [T] is unknown *)
+      if cache_has_target c T then
+        match rm with
+        | Some x => let '(c', l) := cache_remove c now x in (c', ROk, MBag l)
+        | None => (c, ROk, MBag [])
+        end
+      else (c, ROk, MBag [])
   end.
 
 (** * STREAM subscribers (sequential model) *)
@@ -222,6 +236,22 @@ Definition sub_step (feed : list notif) (s : sub) : sub * list sresp :=
 Definition sub_attach (c : cache) (T : string) : sub * list sresp :=
   if cache_has_target c T then (Sub T SRunning, [SSync]) else (Sub T SNotFound, []).
 
+(** processSubscription: the walk of the subscribed target after the hook
+    operation (a Query error is ignored: no leaves) *)
+Definition walk_of (c : cache) (T : string) : list notif :=
+  if String.eqb T "*" then map snd (star_dump c)
+  else match target_dump c T with Some d => map snd d | None => [] end.
+
+(** Subscribe with the initial walk: the entries announced between
+    registration and walk come first (and may already end the stream), then
+    the walked leaves, then the sync marker *)
+Definition sub_attach_walk (c0 c' : cache) (T : string) (feed : list notif) : sub * list sresp :=
+  if cache_has_target c0 T then
+    let '(out, e) := stream_feed T feed in
+    if e then (Sub T SEndedOk, out)
+    else (Sub T SRunning, out ++ map SUpd (walk_of c' T) ++ [SSync])
+  else (Sub T SNotFound, []).
+
 (** * The whole step *)
 
 Record mstate := MS { ms_cache : cache; ms_subs : list sub }.
@@ -234,6 +264,9 @@ Definition mstep (s : mstate) (o : mop) : mstate * rcls * mfeed * list (list sre
   match o with
   | MSub T =>
       let '(sb, out) := sub_attach c' T in
+      (MS c' (subs' ++ [sb]), r, f, outs ++ [out])
+  | MSubWalk _ T _ =>
+      let '(sb, out) := sub_attach_walk (ms_cache s) c' T (mfeed_list f) in
       (MS c' (subs' ++ [sb]), r, f, outs ++ [out])
   | _ => (MS c' subs', r, f, outs)
   end.
@@ -386,6 +419,7 @@ Definition corr_step (o : mop) (s' : mstate) (r : rcls) (f : mfeed) (outs : list
                      tobs_eqb (model_tobs (ms_cache s') (fst kt)) (snd kt)) (o_tgts ob) &&
   Nat.eqb (List.length (star_dump (ms_cache s'))) (List.length (o_star ob)) &&
   Nat.eqb (List.length outs) (List.length (o_subs ob)) &&
-  forallb (fun x => group_eqb (mfeed_ordered f) (fst (fst x)) (fst (snd x)) &&
+  forallb (fun x => group_eqb (mfeed_ordered f && negb (match o with MSubWalk _ _ _ => true | _ => false end))
+                              (fst (fst x)) (fst (snd x)) &&
                     sstat_eqb (sub_stat (snd (fst x))) (snd (snd x)))
           (combine (combine outs (ms_subs s')) (o_subs ob)).
